@@ -81,7 +81,8 @@ StepsGrow == [][(phase = "run" /\ m'.status = "run") => m'.steps = m.steps + 1]_
    EARLIER cell; a cell is "busy" exactly while an item producing it is on the control stack; a finished run
    leaves no cell busy; items are produced once -- a cell that is done never changes again *)
 AllRefs(s) == UNION {{ZRefsSeq(s.acts[k].stk)[j] : j \in 1..Len(ZRefsSeq(s.acts[k].stk))} : k \in 1..Len(s.acts)}
-Producing(s) == {s.ctl[k].zid : k \in {j \in 1..Len(s.ctl) : s.ctl[j].k \in {"hof", "hofk"} /\ s.ctl[j].lz}}
+Producing(s) == {s.ctl[k].zid : k \in {j \in 1..Len(s.ctl) : s.ctl[j].k \in {"hof", "hofk", "zscan"} /\ s.ctl[j].lz}}
+                \cup {s.ctl[k].src : k \in {j \in 1..Len(s.ctl) : s.ctl[j].k = "zscan"}}
 HeapOK == m.status \in {"run", "done"} =>
     /\ AllRefs(m) \subseteq 1..Len(m.heap)
     /\ \A k \in 1..Len(m.heap) : m.heap[k].op = "copy" => m.heap[k].src \in 1..(k - 1)
